@@ -16,6 +16,7 @@
 #include <poll.h>
 #include <sys/types.h>
 #include <sys/wait.h>
+#include <sys/prctl.h>
 #include <unistd.h>
 #include <unordered_set>
 
@@ -52,6 +53,7 @@ struct State {
   std::unordered_set<uint64_t> ntHashes;
   std::vector<std::string> samples; // reservoir
   std::vector<std::string> timeoutSamples;
+  std::map<std::string, uint64_t> timeoutsWhere; // library function a timed-out case was in
   uint64_t sampleSeen = 0, lcg = 88172645463325252ULL;
   std::string firstSample, lastSample;
 
@@ -117,14 +119,24 @@ double elapsed() {
       .count();
 }
 
-const Known *matchKnown(const std::string &key) {
-  for (auto &k : S.known) {
-    if (!k.key.empty() && k.key.back() == '*') {
-      if (key.compare(0, k.key.size() - 1, k.key, 0, k.key.size() - 1) == 0)
-        return &k;
-    } else if (k.key == key)
-      return &k;
+// '*' in a listed signature matches any run of characters
+bool globMatch(const char *p, const char *t) {
+  for (; *p; ++p, ++t) {
+    if (*p == '*') {
+      while (p[1] == '*') ++p;
+      if (!p[1]) return true;
+      for (; *t; ++t)
+        if (globMatch(p + 1, t)) return true;
+      return false;
+    }
+    if (*p != *t) return false;
   }
+  return !*t;
+}
+
+const Known *matchKnown(const std::string &key) {
+  for (auto &k : S.known)
+    if (globMatch(k.key.c_str(), key.c_str())) return &k;
   return nullptr;
 }
 
@@ -316,7 +328,7 @@ Outcome runInProcess(const std::vector<uint32_t> &ch) {
   return o;
 }
 
-Outcome runForked(const std::vector<uint32_t> &ch) {
+Outcome runForked(const std::vector<uint32_t> &ch, int timeoutScale = 1) {
   Outcome o;
   int pfd[2];
   if (pipe(pfd) != 0) {
@@ -331,6 +343,9 @@ Outcome runForked(const std::vector<uint32_t> &ch) {
     exit(2);
   }
   if (pid == 0) {
+    // never outlive the worker: a case that does not return must not keep a core busy after the run
+    prctl(PR_SET_PDEATHSIG, SIGKILL);
+    if (getppid() == 1) _exit(0);
     close(pfd[0]);
     int efd = open(S.stderrPath.c_str(), O_WRONLY | O_CREAT | O_TRUNC, 0644);
     if (efd >= 0) {
@@ -355,7 +370,7 @@ Outcome runForked(const std::vector<uint32_t> &ch) {
   close(pfd[1]);
   std::string buf;
   char tmp[65536];
-  int timeout = S.prop->timeout_ms > 0 ? S.prop->timeout_ms : 60000;
+  int timeout = (S.prop->timeout_ms > 0 ? S.prop->timeout_ms : 60000) * timeoutScale;
   auto start = std::chrono::steady_clock::now();
   bool timedOut = false;
   for (;;) {
@@ -383,13 +398,45 @@ Outcome runForked(const std::vector<uint32_t> &ch) {
   close(pfd[0]);
   int status = 0;
   if (timedOut) {
-    kill(pid, SIGKILL);
-    waitpid(pid, &status, 0);
+    // ask where it is: the sanitizer runtime answers SIGSEGV with a stack trace of the interrupted code
+    kill(pid, SIGSEGV);
+    bool gone = false;
+    for (int i = 0; i < 100 && !gone; ++i) {
+      if (waitpid(pid, &status, WNOHANG) == pid) gone = true;
+      else usleep(100000);
+    }
+    if (!gone) {
+      kill(pid, SIGKILL);
+      waitpid(pid, &status, 0);
+    }
+    std::string err = slurp(S.stderrPath);
+    std::string where = "unknown", trace, lastFn;
+    int nfn = 0;
+    {
+      std::istringstream is(err);
+      std::string line;
+      int shown = 0;
+      while (std::getline(is, line)) {
+        size_t in = line.find(" in ");
+        if (line.find("    #") != 0 || in == std::string::npos) continue;
+        if (shown++ < 14) trace += line + "\n";
+        // the chain of library functions it was in, innermost first (the innermost alone depends on the instant)
+        if (line.find("/src/") != std::string::npos && line.find("/harness/") == std::string::npos) {
+          std::string f = line.substr(in + 4);
+          f = f.substr(0, f.find(' '));
+          if (!f.empty() && nfn < 10 && f != lastFn) {
+            where = nfn++ ? where + "<" + f : f;
+            lastFn = f;
+          }
+        }
+      }
+    }
     deserialize(buf, o.v, o.ctx); // keeps the early description
     o.ctx.labels.clear();
     o.ctx.nontrivial = false;
     o.inconclusive = true;
-    o.v = Verdict::fail("timeout", "case exceeded " + std::to_string(timeout) + " ms");
+    o.v = Verdict::fail("timeout:" + where, "case exceeded " + std::to_string(timeout) + " ms; interrupted in:\n" + trace);
+    ++S.timeoutsWhere[where];
     if (S.timeoutSamples.size() < 5) S.timeoutSamples.push_back(o.ctx.desc);
     return o;
   }
@@ -410,7 +457,23 @@ Outcome runForked(const std::vector<uint32_t> &ch) {
 }
 
 Outcome runCase(const std::vector<uint32_t> &ch) {
-  return S.forked ? runForked(ch) : runInProcess(ch);
+  if (!S.forked) return runInProcess(ch);
+  Outcome o = runForked(ch);
+  if (o.inconclusive && S.prop->hangViolates) {
+    // "never loops forever": a listed class is reported as such; anything else gets ten times the limit,
+    // and only a case that is still running then is called a violation (slow is not hanging)
+    if (matchKnown(o.v.key)) {
+      o.inconclusive = false;
+      return o;
+    }
+    Outcome o2 = runForked(ch, 10);
+    if (o2.inconclusive) {
+      o2.inconclusive = false;
+      o2.v.detail = "still running at ten times the per-case limit\n" + o2.v.detail;
+      return o2;
+    }
+  }
+  return o;
 }
 
 void account(const std::vector<uint32_t> &ch, const Outcome &o) {
@@ -465,6 +528,7 @@ void writeStats(int violations) {
   dumpMap("classes", S.classes);
   dumpMap("excluded_known", S.excludedKnown);
   dumpMap("other_failures", S.otherFailures);
+  dumpMap("timeouts_where", S.timeoutsWhere);
   f << "\"samples\": [";
   std::vector<std::string> ss;
   if (!S.firstSample.empty()) ss.push_back(S.firstSample);
@@ -539,6 +603,7 @@ std::vector<uint32_t> materialise(const std::vector<uint32_t> &expl, uint32_t ta
 // Delta-debugging style minimisation of a failing sequence; a candidate is
 // accepted only if it fails with the *same* finding key.
 void shrinkFailure() {
+  if (S.failKey.rfind("timeout:", 0) == 0) return; // every evaluation would cost the full limit
   auto t0 = std::chrono::steady_clock::now();
   size_t evals = 0;
   auto budgetLeft = [&]() {
